@@ -114,12 +114,12 @@ def ambiguous_rect(g, b, l):
             ys(b[1] + d) % sy == 0 or ys(b[3] - d) % sy == 0)
 
 
-def observe(name_or_grid, g, cases, regime_grids):
+def observe(name_or_grid, g, cases, regime_grids, regime_b=None):
     """run the real TileGrid on every case in both regimes; returns the JSON document for Trace_Lattice"""
     from mapproxy.grid import GridError
     pts, tiles, rects, ress, bbls = cases
     ga, gb = regime_grids
-    A, Bm = L.EXACT, L.AWK
+    A, Bm = L.EXACT, (regime_b or L.AWK)
     problems = []
 
     def back_bbox(reg, bb):
@@ -253,6 +253,21 @@ def run(ctx):
             name, n, len(doc['points']), len(doc['tiles']), len(doc['rects']), len(doc['ress']), len(doc['bbls']),
             'ok' if ok else 'FAILED', r.wall))
 
+    # the same catalogue grids far from the origin of their SRS (third regime)
+    for name in (['G2', 'Gpartul', 'Grectul', 'Gunal', 'Gcust', 'G15'] if thorough else ['G2', 'Grectul', 'Gunal']):
+        g = L.spec_grid(name)
+        cases = gen_cases(g, ctx.rng, 400 if thorough else 150, 300 if thorough else 120)
+        doc, problems = observe(name + '/far', g, cases, (L.real_grid(name, L.EXACT), L.real_grid(name, L.FAR)), regime_b=L.FAR)
+        for p in problems[:1]:
+            ctx.violation({'kind': 'lattice', 'grid': name, 'what': 'far-regime'}, '%s far from the origin: %s' % (name, p), {'grid': g})
+        r, verdict = validate(ctx, name + '-far', doc)
+        n = len(doc['points']) + len(doc['tiles']) + len(doc['rects']) + len(doc['ress']) + len(doc['bbls'])
+        total += n
+        ctx.cov['transitions'] += n
+        ctx.cov['traces_validated_against_impl'] += 1
+        ctx.count(('far', name), n=n)
+        ok = report(ctx, name + ' far from the origin', g, doc, verdict, {'kind': 'lattice', 'grid': name, 'regime': 'far'})
+        ctx.log('%s/far: %d cases %s' % (name, n, 'ok' if ok else 'FAILED'))
     # random grids (code -> spec): random origins, tile sizes, resolution lists (multiples of 10 u), stretch 5/4
     from mapproxy.grid import TileGrid
     from mapproxy.srs import SRS
